@@ -1005,6 +1005,13 @@ def _check_candidate_paths(res: Result, fi: FuncInfo) -> None:
             if f"g1_nbrhd[{u}]" in t:
                 return "deviant"
             return None
+        if isinstance(e, ast.Call) and call_name(e) in ("min", "max", "next") \
+                and e.args:
+            a0 = e.args[0]
+            if isinstance(a0, ast.Call) and call_name(a0) == "iter" and a0.args:
+                a0 = a0.args[0]
+            if covered_kind(a0) == "all":
+                return "some"
         if isinstance(e, ast.Subscript):
             base = covered_kind(e.value)
             if base == "all":
@@ -1013,6 +1020,8 @@ def _check_candidate_paths(res: Result, fi: FuncInfo) -> None:
                     return "first"
                 if sl == "1:":
                     return "rest"
+                if not isinstance(e.slice, ast.Slice):
+                    return "some"           # one unspecified element
                 return "deviant-slice"
             return base if base and base.startswith("deviant") else None
         return None
@@ -1095,7 +1104,7 @@ def _check_candidate_paths(res: Result, fi: FuncInfo) -> None:
         if isinstance(st, ast.Assign) and len(st.targets) == 1 and isinstance(
                 st.targets[0], ast.Name):
             k = covered_kind(st.value)
-            if k in ("first", "rest", "all") and \
+            if k in ("first", "rest", "all", "some") and \
                     st.targets[0].id not in single:
                 loopvars[st.targets[0].id] = k
             return
